@@ -442,15 +442,25 @@ func c01CheckMixed(c C01Mixed) *pbt.Violation {
 		elems[i] = quietF32(e)
 	}
 	c.Elems = elems
+	hasNil := false
 	list := make([]any, len(c.Elems))
 	for i, e := range c.Elems {
 		a := gm.AnyVD(e)
 		v := gm.Build(a.Dyn, a.Elems[0])
-		switch c.Carrier[i] % 3 {
+		switch c.Carrier[i] % 4 {
 		case 1:
 			list[i] = nbt.RawMessage{Type: e.Type, Data: rn.EncodePayload(e)}
 		case 2:
 			list[i] = v.Addr().Interface()
+		case 3:
+			// a typed nil pointer (never the first element): NBT has no null, so the encoder has to refuse the list
+			// (or leave it out of the count as well) - whatever it does, what it writes must be a document
+			if i == 0 {
+				list[i] = v.Interface()
+			} else {
+				list[i] = reflect.Zero(reflect.PointerTo(v.Type())).Interface()
+				hasNil = true
+			}
 		default:
 			list[i] = v.Interface()
 		}
@@ -485,11 +495,14 @@ func c01CheckMixed(c C01Mixed) *pbt.Violation {
 	if derr != nil || n != buf.Len() {
 		return pbt.V("c01.mixed.malformed", "emitted bytes are a well-formed document", "list with carriers %v: reference reader: err=%v consumed %d of %d: % x", c.Carrier, derr, n, buf.Len(), clipB(buf.Bytes()))
 	}
+	if hasNil {
+		return nil // accepted although an element is nil: well-formed is all that can be asked
+	}
 	// a non-empty list of Byte/Int/Long and the typed array with the same numbers are accepted for each other
 	// (plain []any values of those kinds are written as typed arrays; the documentation is silent)
 	if d := rn.Diff(arraysForNumberLists(want), arraysForNumberLists(got), rn.EqOpts{IgnoreEmptyListElem: true}); d != "" {
 		return pbt.V("c01.mixed.tree", "an independent reader decodes the same tree (every element of a list is encoded as what it is)",
-			"list of %d elements of tag %d, carriers %v (0 plain, 1 RawMessage, 2 pointer): %s\n got  %s\n want %s", len(list), c.Elems[0].Type, c.Carrier, d, got, want)
+			"list of %d elements of tag %d, carriers %v (0 plain, 1 RawMessage, 2 pointer, 3 nil pointer): %s\n got  %s\n want %s", len(list), c.Elems[0].Type, c.Carrier, d, got, want)
 	}
 	return nil
 }
@@ -544,7 +557,7 @@ var c01Mixed = pbt.Register(pbt.Prop[C01Mixed]{
 		c := C01Mixed{Where: rapid.IntRange(0, 2).Draw(t, "where"), Network: rapid.Bool().Draw(t, "network")}
 		for i, n := 0, rapid.IntRange(1, 5).Draw(t, "n"); i < n; i++ {
 			c.Elems = append(c.Elems, gen.Tree(t, gen.TreeOpts{MaxDepth: 2, MaxNodes: 8, NoBigStr: true, RootTypes: []byte{tag}}))
-			c.Carrier = append(c.Carrier, rapid.SampledFrom([]int{0, 0, 1, 1, 2}).Draw(t, "carrier"))
+			c.Carrier = append(c.Carrier, rapid.SampledFrom([]int{0, 0, 0, 1, 1, 1, 2, 2, 3}).Draw(t, "carrier"))
 		}
 		return c
 	},
@@ -552,7 +565,7 @@ var c01Mixed = pbt.Register(pbt.Prop[C01Mixed]{
 	Classify: func(c C01Mixed) (bool, []string, []byte) {
 		kinds := map[int]bool{}
 		for _, k := range c.Carrier {
-			kinds[k%3] = true
+			kinds[k%4] = true
 		}
 		return len(kinds) >= 2, []string{fmt.Sprintf("mixed_where_%d", c.Where)}, nil
 	},
